@@ -756,6 +756,9 @@ func applyEdit(doc any, e Edit) (any, error) {
 	if strings.HasPrefix(e.Op, "graft:") {
 		return graft(doc, e)
 	}
+	if e.Op == "replace-json" {
+		return replaceJSON(doc, e)
+	}
 	if e.Op == "strip-regime" {
 		// no $regime, and parties of a tax country that has none: no regime applies
 		out := doc
@@ -1462,7 +1465,7 @@ func init() {
 			"(addresses, identities, tax_id, combos, item origin); plus insert positions (a tag, an addon, a missing $regime, a country override on every combo, one more extension on every combo and ext map, an extension map on every object whose published schema allows one and that has none, and - for absent members whose published type allows one - a small instance of the member carrying the extension). "+
 			"`single` crosses every position with (a) other values the published files define for that kind (a seed-dependent sample in the quick tier, all of them in the thorough tier) and "+
 			"(b) undefined ones: one-character near misses of defined values, countries without a regime, keys of other regimes / addons, malformed and random well-formed keys / codes; "+
-			"`regimeless` strips the regime from four examples of every document kind (no $regime, no addons, parties of a tax country without regime) and then replaces every currency and country with undefined codes; `double` draws two replacements at random (half from those lists, half free strings). Two modes: `build` edits the example source and envelopes (calculates) it before validating; "+
+			"`regimeless` strips the regime from four examples of every document kind (no $regime, no addons, parties of a tax country without regime) and then replaces every currency and country with undefined codes; `double` draws two replacements at random (half from those lists, half free strings). `combo_sets` replaces every tax set of every example (quick: the first three per document) by a pair - a combo naming another regime's country (with one of its keyed categories) or a country without regime, then a combo without country whose category (of another regime, or undefined) or rate key the document's regime does not define: what applies to a combo is its own country or the document's regime, never its neighbour's. Two modes: `build` edits the example source and envelopes (calculates) it before validating; "+
 			"`validate` edits the calculated example and validates it as it stands (digest recomputed). A rejection at any stage is fine; when Validate() returns nil the resolver "+
 			"(data/regimes, data/addons, data/catalogues, data/currency, the country enumerations of data/schemas/l10n; never the Go registries) must resolve every reference of the validated JSON. "+
 			"Non-trivial rule: the edited input itself contains a reference that the published files do not define, or define for another regime / category / addon / document type than the one that applies "+
@@ -1505,6 +1508,7 @@ func init() {
 	})
 	vh.Rapid("double", 12_000, 600_000, genDouble, judge)
 	vh.Enum("regimeless", enumRegimeless, judgeSafely)
+	vh.Enum("combo_sets", enumSets, judgeSafely)
 }
 
 // ---------------------------------------------------------------------------
